@@ -330,10 +330,14 @@ func (r *recorder) recordIncomingRTCP(latestStats internalStats, incoming *incom
 		case *rtcp.ReceiverReport:
 			latestStats = r.recordIncomingRR(latestStats, pkt.Reports, incoming.ts)
 		case *rtcp.SenderReport:
-			latestStats.RemoteOutboundRTPStreamStats.PacketsSent = uint64(pkt.PacketCount)
-			latestStats.RemoteOutboundRTPStreamStats.BytesSent = uint64(pkt.OctetCount)
-			latestStats.RemoteTimeStamp = ntp.ToTime(pkt.NTPTime)
-			latestStats.ReportsSent++
+			// The sender info describes the stream of the sender. A sender report also reaches
+			// the recorders of the streams it carries reception report blocks for.
+			if pkt.SSRC == r.ssrc {
+				latestStats.RemoteOutboundRTPStreamStats.PacketsSent = uint64(pkt.PacketCount)
+				latestStats.RemoteOutboundRTPStreamStats.BytesSent = uint64(pkt.OctetCount)
+				latestStats.RemoteTimeStamp = ntp.ToTime(pkt.NTPTime)
+				latestStats.ReportsSent++
+			}
 			latestStats = r.recordIncomingRR(latestStats, pkt.Reports, incoming.ts)
 
 		case *rtcp.ExtendedReport:
